@@ -38,6 +38,10 @@ CHECKS = {
          "No signing-path instruction overwrites, element-stores into or relabels an object owned by the caller's key data (one declared exception); the ECDSA k/gamma and EdDSA r_i nonces are stored once per session directly from GetRandomPositiveInt(round.Rand(), N); both save-data types are closed under encoding/json (exported fields or symmetric custom codecs with identical auxiliary types); the subset builder copies every per-party slice at one (j, savedIdx) pair and every other field group whole, into slices of its own.",
          "§4.20",
          "Not decided: equality of results after a JSON reload, nonce distinctness as a probability statement."),
+ "C04": ("who-may-write (effect) and must-pass-through rules over the resharing packages: module-wide *big.Int ownership/mutation analysis for the old share, store/emit placement for the new key material, dominating accept-edge and for-all-loop facts at the acknowledgement send, constructor/NextRound placement of the erasing round, constructor-parameter plumbing by name agreement; round-engine and ok-flag rules shared with C07/C08",
+         "The only instruction in the module that can modify the old share is one call in the final round's Start on the old-only branch; new key material is written and emitted only there, on the new-committee branch; the acknowledgement is sent (and the new share parked) only after every old member's de-commitment, point decoding and share check and the group-key comparison succeeded; the erasing round is constructed only by the acknowledgement round, which waits for the acknowledgement array; the resharing parameters (t', n') reach their accessors from the constructor arguments of the same name. The one place where a new member can still abort after the acknowledgements (ecdsa/resharing round 5, fac proofs) is a recorded known finding.",
+         "§4.4",
+         "Not decided: that the new sharing is of the same key and that any t'+1 members can sign (polynomial algebra over runtime values), chains of resharings, delivery liveness."),
  "C05": ("must-verify / must-branch / blame-index rules: interprocedural data dependence from message accessors to verifier operands, greatest-fixpoint must-abort regions over the CFG with abort actions (error return, error/false send, culprit record), verdict flow through channels, result arrays and completion callbacks, index-origin resolution of culprits and of the message elements a guard reads (loops, closures, captured variables), session-context index classes",
          "Every proof, de-commitment and share carried by a message flows into its verifier in a round that reads it; every verifier verdict controls a branch whose failing side cannot reach an exit without an abort action, and recorded culprits reach a returned error; every abort site that names parties names the sender of the message its guard reads in the same iteration (nobody/self only for aggregate or local failures), and asynchronously run closures do not read variables the spawning loop reassigns; provers and verifiers receive ssid||index of the same party.",
          "§4.5",
